@@ -683,6 +683,28 @@ def check_on_geo2(
             f"'BG surfaces' have {file_dict['BG surfaces'].values.shape[1]} columns"
         )
 
+    # Check on same index 'points coordinates' and 'mapping'
+    if (
+        file_dict["points coordinates"].index.to_list()
+        != file_dict["mapping"].index.to_list()
+    ):
+        raise ValueError(
+            "'points coordinates' and 'mapping' must have the same index.\n"
+            f"'points coordinates' index is {file_dict['points coordinates'].index} while 'mapping' index is {file_dict['mapping'].index}"
+        )
+
+    # Check on same index 'points coordinates' and 'sensors sign'
+    if (
+        file_dict.get("sensors sign") is not None
+        and not file_dict["sensors sign"].empty
+        and file_dict["points coordinates"].index.to_list()
+        != file_dict["sensors sign"].index.to_list()
+    ):
+        raise ValueError(
+            "'points coordinates' and 'sensors sign' must have the same index.\n"
+            f"'points coordinates' index is {file_dict['points coordinates'].index} while 'sensors sign' index is {file_dict['sensors sign'].index}"
+        )
+
     # if there is no 'sensors sign' create one
     if file_dict.get("sensors sign") is None or file_dict["sensors sign"].empty:
         sens_sign = pd.DataFrame(
